@@ -378,7 +378,7 @@ func TestCheck(t *testing.T) {
 			idx = append(idx, i)
 		}
 	}
-	rej, res := tv.Validate(tlc.Opts{Dir: "Broadcaster", Module: "TraceBcast", Config: "TraceBcast.cfg", Workers: 16, Timeout: ev.Pick(6*time.Minute, 40*time.Minute), HeapMB: 12000}, jb)
+	rej, res := tv.ValidateChunked(tlc.Opts{Dir: "Broadcaster", Module: "TraceBcast", Config: "TraceBcast.cfg", Workers: 16, Timeout: ev.Pick(6*time.Minute, 40*time.Minute), HeapMB: 12000}, jb)
 	fmt.Printf("TLC contract validation: ok=%v traces=%d rejected=%d distinct=%d wall=%s %s\n", res.OK, jb.Len(), len(rej), res.Distinct, res.Wall.Round(time.Millisecond), res.What)
 	if !res.OK {
 		e.Inconclusive("trace validation did not run: " + res.What + res.Tail(1500))
@@ -427,7 +427,7 @@ func selfTest(e *ev.Evidence) {
 	mk([]int{1, 2}, false)
 	mk([]int{2, 1}, false) // different order
 	mk([]int{1}, true)     // lost value
-	rej, res := tv.Validate(tlc.Opts{Dir: "Broadcaster", Module: "TraceBcast", Config: "TraceBcast.cfg", Workers: 2, Timeout: 2 * time.Minute}, b)
+	rej, res := tv.ValidateChunked(tlc.Opts{Dir: "Broadcaster", Module: "TraceBcast", Config: "TraceBcast.cfg", Workers: 2, Timeout: 2 * time.Minute}, b)
 	got := map[int]bool{}
 	for _, r := range rej {
 		got[r.Trace] = true
